@@ -4,6 +4,8 @@ import ast
 from ..model import AnalysisError
 from ..lib import (FV, decode_new, decode_call, phi_members, is_sym, is_const, is_str, strip_stores, stores_of, cond_equiv,
                    path_term)
+from ..lib import (reached_iff, reached_implies, implies_reached, reached_iff_any, path_term, cond_equiv, cond_implies,  # noqa: F401
+                   else_stmts, branch_stmts, context_literals)
 from ..cfg import always_raises, walk_stmts
 from ..terms import r_neg
 from . import common as cm
@@ -290,10 +292,11 @@ def _reached_iff(chk, v, key, stmts, want_text, variables, what, env=None):
     if not stmts:
         chk.ob(key, False, "C05.D7", f"{what}: the statement vanished", v.f)
         return
-    parts = [path_term(v, st) for st in stmts]
+    parts = [v.ev._bool("and", [path_term(v, st)] + context_literals(v, st)) for st in stmts]
     got = parts[0] if len(parts) == 1 else v.ev._bool("or", parts)
     want = v.spec(want_text, env=env)
-    ok = cond_equiv(v, got, want, variables)
+    hit = reached_iff_any(v, stmts, want, variables)
+    ok = len(hit) == len(stmts)
     chk.ob(key, ok, "C05.D7", f"{what} happens under {v.show(got)[:260]}; expected exactly under `{want_text}`", v.f, stmts[0])
 
 
